@@ -6,7 +6,7 @@
 // and committed as the next prior (what ChainState.StateCommit does for this component).
 //
 // input:  <H> <C> <nb>  H <n> {hh sroot beefy nrep {hash exports}*}*n  M <np> {peak|-}*np
-//         then nb blocks:  B <header-encoding-hex> <parent-state-root> <ng> {pkghash exports}*ng <na> {service outhash}*na
+//         then nb blocks:  B|F <header-encoding-hex> <parent-state-root> <ng> {pkghash exports}*ng <na> {service outhash}*na
 // output: after every block "E hh,sroot,beefy,hash:exports:... ; ... M peak,peak,-" blocks separated by "/";
 //         then " # alias=<none|prior-mutated:n/blocks>" (was the PRIOR beta object changed by the call; informational).
 package main
@@ -116,7 +116,14 @@ func gen(rng *h.Rng, tier string, emit func(string)) {
 			if r.Chance(1, 5) {
 				ng = 0
 			}
-			fmt.Fprintf(&sb, " B %s %s %d", h.Hex(enc), h.Hex(hd.ParentStateRoot[:]), ng)
+			// F = a block executed on the current prior state but NOT committed (a fork sibling, or a block rejected by a
+			// later STF step): the next block runs from the very same prior-state object
+			kindTok := "B"
+			if r.Chance(1, 4) {
+				kindTok = "F"
+				st.Inc("blocks-uncommitted-sibling")
+			}
+			fmt.Fprintf(&sb, " %s %s %s %d", kindTok, h.Hex(enc), h.Hex(hd.ParentStateRoot[:]), ng)
 			pairs := []string{}
 			for g := 0; g < ng; g++ {
 				var p string
@@ -266,9 +273,10 @@ func run(input string) string {
 	outs := make([]string, 0, nb)
 	mutated, blocks := 0, 0
 	for b := 0; b < nb; b++ {
-		if f[pos] != "B" {
-			panic("verifh: expected B")
+		if f[pos] != "B" && f[pos] != "F" {
+			panic("verifh: expected B or F")
 		}
+		commit := f[pos] == "B"
 		enc := h.UnHex(f[pos+1])
 		var hd types.Header
 		if err := types.NewDecoder().Decode(enc, &hd); err != nil {
@@ -311,8 +319,11 @@ func run(input string) string {
 		if fmtBeta(cs.GetPriorStates().GetBeta()) != snap {
 			mutated++
 		}
-		// what ChainState.StateCommit does for this component
-		cs.GetPriorStates().SetBeta(post)
+		// what ChainState.StateCommit does for this component; an uncommitted block leaves the prior state OBJECT in place
+		// (no snapshot is restored: whatever the call did to it is what the next block starts from, as in the node)
+		if commit {
+			cs.GetPriorStates().SetBeta(post)
+		}
 		cs.GetPosteriorStates().SetBeta(types.RecentBlocks{})
 		cs.GetPosteriorStates().SetLastAccOut(nil)
 	}
